@@ -43,15 +43,28 @@ PROP = {
             "(bounded and unbounded displacement), double / stale reports, flush ticks, gaps of 0..250 ms around the 100 ms flush "
             "interval: in-memory frontier, pending, advanced and the requests after every event vs Lean `coordOnCommitted`/`coordFlush`; "
             "monitors: frontier = contiguous reported prefix, a journal record is deleted only after a frontier covering it was saved. "
+            "c14b: real LoadBisyncLatestStartRecord over 1-4 recovery slots (latest records with equal / different end offsets and mtimes, foreign ids, "
+            "empty slots) vs Lean `bestLatest`. "
+            "c14l (send loops): the REAL RedisOutput.StartPoint wrapper + the REAL sendAofBisync (parseAofReplayUnits, sendBisyncSync / sendBisyncPipeline / "
+            "sendBisyncParallel with lane workers, receive loop, handleResult, coordinator, final flush) under virtual time on streams of 2-7 units (one a "
+            "source transaction), fresh namespace or a stale frontier of an earlier numbering below a newer root, two lanes (cluster-typed configuration, "
+            "one lane stalled), abrupt / settled end; fault injection (FailAt / FailInner): coordinator frontier HSET, recovery frontier HSET, a queued "
+            "command (EXECABORT), a command failing inside EXEC, a journal DEL. EVERY request prefix (state replayed with the fault failing again) -> fresh "
+            "process StartPoint; resumed run from a random crash point to the end. Monitors independent of any model (unit committed = its data key exists): "
+            "resume at a unit boundary with every earlier unit committed; sync: exactly the last committed; bisyncSeq = number of that unit; resume never "
+            "moves backwards along the log; a start whose own frontier HSET failed is not undercut by the next; in-memory bisyncSeq/bisyncOffset at every "
+            "request is a committed prefix; second StartPoint of the SAME process (fast path); resumed run leaves no unit uncommitted. "
             "distinct_nontrivial = distinct (mode, #requests, journal size, index size) with clean-up / (#events, #requests) / advancing rebuilds",
     "trusted": ["target double harness/overlay/pkg/vfdoubles/target.go (HSET/HGETALL/DEL/ZADD/ZREM/ZRANGEBYSCORE/INFO keyspace/SELECT semantics of a standalone Redis)",
                 "a unit's data, journal record and index entry are one MULTI/EXEC (dispatchBisyncUnit queues them on a TxnBatcher; C13/C18 check the batch) - modelled as the single request `commit`"],
     "assumptions": [
         "standalone target: one recovery slot (bisyncRecoverySlots() = [0]), every unit forced to slot 0; cluster mode (16384 slot tags, one index per slot, lanes on several nodes) is covered by the theorems about `rebuild` and the coordinator only",
-        "one numbering of units per namespace (World.e): a root checkpoint NEWER than the frontier (after a finished full sync) restarts the numbering at 0 - the start-point model and the correspondence include that override, the invariant theorem `resume_is_committed_prefix` is about runs inside one numbering (root = e 0)",
+        "one numbering of units per namespace (World.e, root = e 0) in the invariant theorems; the numbering RESTART (root newer than the frontier after a finished full sync, no frontier, journal gap: start returns the root with seq 0) is in the start-point model (purge of the previous numbering's journal + snapshot, D25/D26) and tied by correspondence; that no unit is skipped across a restart of the numbering is checked on the real send loops (c14l, stale-frontier and two-lane cases), not proved",
         "fresh process at every start (the in-memory frontier-miss fast path of bisyncFrontierMissFastPath is empty)",
         "RDB phase units (bisync_rdb.go, `rdb:` records) are outside the property (incremental replay)",
-        "a start that finds a journal gap right after an absent / seq-0 snapshot returns an error (modelled as `gap`, theorem rebuild_gap_is_error); parallel lanes can produce that state before the first flush - reported as observation",
+        "monotonicity of the resume point along executions WITH traffic is monitored on the real loops (loop-resume-moves-backwards) but proved only for stop/start cycles without traffic (resume_monotone, from every reachable state)",
+        "cluster: one journal / index per slot and duplicates of one sequence number in several slot keys are covered by `rebuild` (any record list) and c14b (best latest over slots); the per-slot index scan of LoadBisyncCommitRecords runs with the 16384 slot tags only in the two-lane c14l cases",
+        "reviewer's mutant m5 (lane worker ignores validateBisyncExecReplies) is behaviourally equivalent: txnBatcher.Receive already rejects EXECABORT and inner errors (common.CheckTxnRepliesError) before the validation is reached - verified with the queued / inner fault cases under the mutant",
     ],
     "partial": [],
 }
@@ -64,7 +77,7 @@ MANIFEST = {
             "any number of stop/start cycles, each cut after any number of recovery requests, never moves the resume point backwards. "
             "Tied to the code by differential correspondence of the real RebuildBisyncFrontier, bisyncFrontierCoordinator (virtual time) and "
             "bisyncStartPoint + clean-up against the target double with every request prefix replayed, plus independent monitors. "
-            "Two defects found and fixed (D12: recovery deleted journal records without saving the rebuilt frontier; D21: recovery keys read in the database GetCheckpoint visited last).",
+            "Four defects found and fixed (D12: recovery deleted journal records without saving the rebuilt frontier; D21: recovery keys read in the database GetCheckpoint visited last; D25: numbering restart over the stale frontier of the previous numbering skipped units; D26: journal gap made every start fail).",
     "note": "trusted: Lean kernel (propext, Classical.choice, Quot.sound only), target double, extractor, harness; models hand-written and tied by correspondence; flush constants compared with the source each run",
     "technique": "Lean 4 proof (fold invariants, transition-system invariant by induction over step lists) + differential correspondence over every request prefix (crash points) under virtual time",
 }
